@@ -595,7 +595,7 @@ Exec(S, x, pfx) ==
        ELSE Def(S, IsGlobal(S, pfx \/ mn.a = P_gdef))
   ELSE IF mn = Prim(P_let) THEN Let(S, pfx)
   ELSE IF mn.m = "prim" /\ mn.a \in {P_countdef, P_chardef, P_toksdef}
-  THEN IF pfx /\ mn.a = P_chardef THEN Skip(S, "skip-global-chardef") ELSE RegDef(S, mn.a, pfx)
+  THEN RegDef(S, mn.a, pfx)
   ELSE IF mn = Prim(P_toks) \/ mn.m = "tdef" THEN AssignToks(S, t, pfx)
   ELSE IF mn = Prim(P_count) \/ mn.m = "cdef" \/ mn = Prim(P_globaldefs) THEN AssignVar(S, t, pfx)
   ELSE IF mn.m = "prim" /\ mn.a \in {P_advance, P_multiply, P_divide} THEN Arith(S, mn.a, pfx)
